@@ -156,6 +156,8 @@ def generate(ck):
     descs.append({"kind": "python-O", "curve": "ideal", "M": 1.0, "tau": 1.0, "end": 1.0, "n": 50, "t0": 0.0})
     descs.append({"kind": "malformed-special", "curve": "ideal", "M": 1.0, "tau": 1.0, "end": 1.0, "n": 50, "t0": 0.0, "seed": int(ck.seed)})
     for cv in ("ideal", "fourier"):
+        descs.append({"kind": "typed-records", "curve": cv, "M": 0.0, "tau": 1.0, "end": 1.0, "n": 80, "t0": 0.0})
+    for cv in ("ideal", "fourier"):
         descs.append({"kind": "default-bounds-active", "curve": cv, "M": 0.0, "tau": 1.0, "end": 1.0, "n": 80, "t0": 0.0})
     for cv in ("ideal", "fourier", "cubic-table"):
         descs.append({"kind": "never-produced", "curve": cv, "M": 0.0, "tau": 1.0, "end": 1.0, "n": 60, "t0": 0.0})
@@ -193,6 +195,39 @@ def run_case(ck, desc):
             else:
                 ck.count(f"rejections.python-O.{o[7:]}")
         return True, {"snippets": len(snips)}
+    if kind == "typed-records":
+        # records as they come out of a database: days and cumulative volumes in INTEGER columns (or single
+        # precision), with bounds whose limits are not whole numbers and exclude the data-derived first guess
+        # (2 cum[-1], 5 t[-1]): the guess is moved inside the bounds whatever the records' dtype, the fit runs and
+        # the fitted values lie inside the bounds
+        f0 = curve(desc["curve"])
+        t_f = np.arange(1.0, 81.0)
+        cum_f = np.round(1200.0 * np.asarray(f0(t_f / 400.0), dtype=float) + 5.0)
+        typings = {"int64 arrays": (t_f.astype("i8"), cum_f.astype("i8")), "python int lists": ([int(v) for v in t_f], [int(v) for v in cum_f]), "float32 arrays": (t_f.astype("f4"), cum_f.astype("f4")), "int32 arrays": (t_f.astype("i4"), cum_f.astype("i4"))}
+        g_M, g_tau = 2.0 * cum_f[-1], 5.0 * t_f[-1]
+        bound_sets = [((g_M * 1.3 + 0.76, g_M * 4 + 0.31), (g_tau + 0.5, 10 * g_tau + 0.25)), ((0.11, g_M * 0.4 + 0.13), (0.37, g_tau * 0.3 + 0.77)), ((g_M * 1.01 + 0.3, g_M * 1.01 + 0.9), (1e-10, np.inf))]
+        for label_, (tt_, cc_) in typings.items():
+            for Mb_, tb_ in bound_sets:
+                for tau_s_ in (None, float(np.clip(350.5, tb_[0], min(tb_[1], 1e9)))):
+                    fo_ = ForecasterOnePhase(f0, Bounds(M=Mb_, tau=tb_))
+                    try:
+                        with warnings.catch_warnings():
+                            warnings.simplefilter("ignore")
+                            fo_.fit(tt_, cc_, tau=tau_s_)
+                    except Exception as e:  # noqa: BLE001
+                        _drain()
+                        ck.violation("initial-guess-inside-finite-bounds", {"records_as": label_, "bounds": [list(Mb_), list(tb_)], "tau_supplied": tau_s_, "raised": repr(e)[:160]}, desc)
+                        continue
+                    calls_ = _drain()
+                    ck.count("fits_of_integer_or_single_precision_records")
+                    if calls_:
+                        p0_ = [float(v) for v in np.atleast_1d(calls_[-1]["p0"])]
+                        lims_ = [Mb_] + ([tb_] if tau_s_ is None else [])
+                        if any(not (lo_ <= v_ <= hi_) for v_, (lo_, hi_) in zip(p0_, lims_)):
+                            ck.violation("initial-guess-inside-finite-bounds", {"records_as": label_, "p0": p0_, "bounds": [list(x_) for x_ in lims_]}, desc)
+                    if not (Mb_[0] <= fo_.M_ <= Mb_[1]) or (tau_s_ is None and not (tb_[0] <= fo_.tau_ <= tb_[1])) or (tau_s_ is not None and fo_.tau_ != tau_s_):
+                        ck.violation("fitted-M-inside-bounds", {"records_as": label_, "M_": float(fo_.M_), "tau_": float(fo_.tau_), "bounds": [list(Mb_), list(tb_)], "tau_supplied": tau_s_}, desc)
+        return True, {"typings": len(typings)}
     if kind == "default-bounds-active":
         # records whose unconstrained optimum lies OUTSIDE the default limits (a net-injection / storage well: the
         # cumulative falls; zero-mean meter noise of a shut-in well; a re-based cumulative), fitted by a
